@@ -160,7 +160,11 @@ cdef class PriorityQueue:
 		return first_entry
 
 	def change_score(self, item_type item, new_score):
-		'''Changes the score of the given item to the new assigned score.'''
+		'''Changes the score of the given item to the new assigned score.
+		Raises a KeyError if the item is not in the heap.'''
+		# positions[item] would create an entry for an unknown item (pointing to the root)
+		if self.positions.find(item) == self.positions.end():
+			raise KeyError(item)
 		cdef priority_type_ptr c_new_score = _pyscore_to_vector(new_score)
 		self.c_change_score(item, c_new_score)
 
